@@ -24,6 +24,7 @@ EXPECT = {
     "several WithWorldOptions": ["C11"],
     "variable names must be declared": ["C02"],
     "New and Append refuse": ["C02"],
+    "evaluation failed cannot be saved": ["C18"],
 }
 def sh(cmd, **kw):
     return subprocess.run(cmd, shell=True, capture_output=True, text=True, **kw)
